@@ -47,9 +47,10 @@ var (
 	}
 	originsValidInsecure = []string{
 		"http://example.com", "http://*.example.com:8080", "connector://localhost.example", "http://10.0.0.1", "http://[2001:db8::1]",
-		"http://*.localhost.example",
+		"http://*.localhost.example", "http://app.localhost:8080", "http://a.b.localhost", "connector://x.localhost",
 	}
-	originsPSL    = []string{"https://*.com", "https://*.co.uk:*", "https://*.com.", "https://*.github.io", "https://*.co.uk.:8080"}
+	originsPSL = []string{"https://*.com", "https://*.co.uk:*", "https://*.com.", "https://*.github.io", "https://*.co.uk.:8080",
+		"http://*.localhost", "http://*.localhost:8080", "https://*.localhost"} // `localhost` is a public suffix by the list's default rule; the pattern side compares the base host with "localhost"
 	originsDefect = []string{
 		"null", "file:///x", "file://localhost", "https://résumé.com", "https://EXAMPLE.com", "https://Example.com",
 		"http://example.com:80", "https://example.com:443", "https://example.com:0", "https://example.com:65536",
